@@ -432,6 +432,8 @@ class SimPeer:
         fields = urllib.parse.parse_qs(data.decode('ascii'),
                                        keep_blank_values=True)
         fields = {k: v[0] for k, v in fields.items()}
+        if 'textgears' in url:
+            return self.textgears(url, fields)
         is_local = 'localhost' in url
         if is_local and not self.http_up():
             w.fire('http_refused')
@@ -456,6 +458,48 @@ class SimPeer:
         w.ev('submit', transport='http', url=url, fields=norm,
              language=language, text=text)
         return _Reply(self.answer(text, language, norm))
+
+
+def _textgears(self, url, fields):
+    """TextGears transport: other answer shape ({'errors': [...]}), no
+    language, no rule options."""
+    import urllib.error
+    w = self.world
+    if self.http.get('remote_down'):
+        w.fire('http_remote_down')
+        w.ev('urlopen', url=url, res='down', t=w.clock.now)
+        raise urllib.error.URLError('Name or service not known (simulated)')
+    text = fields.get('text', '')
+    norm = {'key': fields.get('key'), 'url': url}
+    tag = opts_tag(norm)
+    w.ev('submit', transport='textgears', url=url, fields=norm,
+         language=None, text=text)
+    k = self.invocations
+    self.invocations += 1
+    errs = []
+    for t in self.cfg.get('targets', []):
+        o = text.find(t)
+        if o < 0:
+            continue
+        for _ in range(2 if t in self.cfg.get('dup', []) else 1):
+            errs.append({'offset': o, 'length': len(t), 'bad': t,
+                         'type': 'found: "%s" [%s]' % (t, tag),
+                         'better': [t.upper(), 'naïve']})
+    data = json.dumps({'result': True, 'errors': errs, 'score': 50},
+                      ensure_ascii=self.cfg.get('ensure_ascii', False)
+                      ).encode('utf-8')
+    fault = self.cfg.get('faults', {}).get(str(k))
+    if fault:
+        for f in (fault if isinstance(fault, list) else [fault]):
+            w.fire('answer_' + f['kind'])
+        data = apply_answer_fault(json.loads(data.decode('utf-8')), fault,
+                                  self.cfg)
+    w.ev('answer', k=k, nbytes=len(data),
+         sha=hashlib.sha1(data).hexdigest()[:12], nmatches=len(errs))
+    return _Reply(data)
+
+
+SimPeer.textgears = _textgears
 
 
 # ---------------------------------------------------------------------
